@@ -21,11 +21,12 @@ func init() {
 			"decoder strings: nil, empty, all strings of 1-2 bytes, all 3-byte strings (thorough) / first byte x 40x40 symbols (quick); every truncation and single-byte replacement of 300 valid encodings",
 		},
 		Scenarios: []mc.Scenario{
-			{Name: "encode-every-slot-subset", Tiers: "qt", ShardDepth: 3, Run: c19Encode},
-			{Name: "every-temporal-layer-count-vector", Tiers: "qt", ShardDepth: 3, Run: c19TLVectors},
+			// the cheap scenarios first: what they leave of their share of the budget goes to the others
 			{Name: "marshal-rejects-invalid", Tiers: "qt", ShardDepth: 2, Run: c19Invalid},
 			{Name: "decoder-short-strings", Tiers: "qt", ShardDepth: 1, Run: c19Short},
 			{Name: "decoder-mutations", Tiers: "qt", ShardDepth: 3, Run: c19Mutations},
+			{Name: "every-temporal-layer-count-vector", Tiers: "qt", ShardDepth: 3, Run: c19TLVectors},
+			{Name: "encode-every-slot-subset", Tiers: "qt", ShardDepth: 3, Run: c19Encode},
 		},
 	})
 }
